@@ -187,6 +187,37 @@ def bases():
         'variables': {'default': {'global': {'k': 'v'}}},
         'components': [comp('A', args='%(k)s'), comp('BA', 0, ['A:ref']), comp('A', 1, ['stage0.BA:ref']),
                        comp('AB', 1, ['A:ref', 'stage0.A:output']), comp('Z', 2, ['stage1.AB:ref', 'stage1.A:ref'])]}))
+    # -- array access: a variable used only as the INDEX of another variable
+    out.append(_b('b26-array-index-variables', {
+        'variables': {'default': {'global': {'choices': 'alpha beta gamma', 'pick': '1', 'n': '2'},
+                                  'stages': {1: {'which': '2'}}}},
+        'components': [comp('select', args='%(choices)s[%(pick)s]'),
+                       comp('fan', 0, ['select:ref'], args='%(choices)s[%(replica)s]',
+                            workflowAttributes={'replicate': '%(n)s'}),
+                       comp('join', 1, ['stage0.fan:ref'], args='%(choices)s[%(which)s] %(mine)s[%(idx)s]',
+                            variables={'mine': 'x y', 'idx': 0}, workflowAttributes={'aggregate': True})]}))
+    # -- a component that has the name of a folder of the package; the stage prefix says which of the two is meant
+    out.append(_b('b27-component-named-like-application-dependency', {
+        'application-dependencies': {'default': ['prep.application']},
+        'components': [comp('prep'),
+                       comp('sim', 0, ['stage0.prep:ref', 'prep/bin:ref']),
+                       comp('report', 1, ['stage0.sim:ref', 'stage0.prep/out.txt:copy'])]}, nonc=('prep',)))
+    out.append(_b('b28-component-named-like-top-level-folder', {
+        'components': [comp('tools'), comp('mid', 0, ['stage0.tools:ref']),
+                       comp('user', 1, ['stage0.tools/o.txt:copy', 'stage0.mid:ref'])]},
+        nonc=('tools',), files={'tools/run.sh': '#!/bin/sh\n'}))
+    # -- replication that reaches consumers, replica names with two digits, the replica variable in inherited replicas
+    out.append(_b('b29-replica-consumers', {
+        'variables': {'default': {'global': {'n': 2, 'many': 11}}},
+        'components': [comp('plain'),
+                       comp('fan', 0, ['plain:ref'], args='%(replica)s', workflowAttributes={'replicate': '%(n)s'}),
+                       comp('work', 0, ['fan:ref'], args='%(replica)s'),
+                       comp('audit', 0, ['plain:ref']),
+                       comp('sweep', 1, args='%(replica)s', workflowAttributes={'replicate': '%(many)s'}),
+                       comp('probe', 1, args='%(replica)s', workflowAttributes={'replicate': 2}),
+                       comp('join', 2, ['stage0.work:ref', 'stage0.audit:ref'], workflowAttributes={'aggregate': True}),
+                       comp('collect', 2, ['stage1.sweep:ref'], workflowAttributes={'aggregate': True}),
+                       comp('gather', 2, ['stage1.probe:ref'], workflowAttributes={'aggregate': True})]}))
     return out
 
 
@@ -208,6 +239,33 @@ def _respell(ref, new_producer):
     if stage is not None:
         body = 'stage%d.%s' % (stage, body)
     return '%s:%s' % (body, method)
+
+
+def _respell_stage(ref, new_stage):
+    stage, producer, path, method = V.parse_ref(ref)
+    body = producer if path is None else '%s/%s' % (producer, path)
+    return 'stage%d.%s:%s' % (new_stage, body, method)
+
+
+def rename_component(r, where, index, new_name):
+    """Gives component `index` the name `new_name` and re-spells every reference to it (references and arguments of the
+    components of the same document), so that the only thing that changes is the identifier."""
+    lst = _comp_list(r, where)
+    target = lst[index]
+    old, tstage = target['name'], target.get('stage', 0)
+    for c in lst:
+        if not isinstance(c, dict):
+            continue
+        refs = c.get('references')
+        for j, ref in enumerate(refs if isinstance(refs, list) else []):
+            p = V.parse_ref(ref)
+            if p is None or p[1] != old or (p[0] if p[0] is not None else c.get('stage', 0)) != tstage:
+                continue
+            new = _respell(ref, new_name)
+            refs[j] = new
+            if isinstance(c.get('command', {}).get('arguments'), str):
+                c['command']['arguments'] = _replace_token(c['command']['arguments'], ref, new)
+    target['name'] = new_name
 
 
 def _replace_token(text, old, new):
@@ -233,7 +291,18 @@ def apply(root, mut):
         cmd['arguments'] = (cmd.get('arguments', '') + ' ' + mut['reference']).strip()
     elif k == 'dup':
         lst = _comp_list(r, mut['where'])
-        lst[mut['to']]['name'] = lst[mut['from']]['name']
+        if mut.get('consistent'):
+            rename_component(r, mut['where'], mut['to'], lst[mut['from']]['name'])
+        else:
+            lst[mut['to']]['name'] = lst[mut['from']]['name']
+    elif k == 'dupreplica':
+        rename_component(r, mut['where'], mut['index'], mut['to'])
+    elif k == 'restage':
+        c = _comp_list(r, mut['where'])[mut['index']]
+        old = c['references'][mut['ref']]
+        new = _respell_stage(old, mut['stage'])
+        c['references'][mut['ref']] = new
+        c['command']['arguments'] = _replace_token(c['command']['arguments'], old, new)
     elif k == 'misspell':
         d = _at(r, mut['path'])
         items = [(mut['new'] if kk == mut['key'] else kk, vv) for kk, vv in d.items()]
@@ -318,7 +387,7 @@ def mutations(base, platform, thorough):
             refs = e['comp'].get('references') or []
             for j, ref in enumerate(refs):
                 p = V.parse_ref(ref)
-                if p is None or V.is_noncomponent(p[1], base['nonc']):
+                if p is None or V.is_noncomponent(p[1], base['nonc'], p[0]):
                     continue
                 old = p[1]
                 cands = ['Zq', old + 'A', 'A' + old] + ([old[:-1]] if len(old) > 1 else []) + names
@@ -330,6 +399,18 @@ def mutations(base, platform, thorough):
                     for variant in ('both', 'refs-only'):
                         yield {'kind': 'rename', 'where': where, 'index': e['where'][1], 'ref': j, 'to': q,
                                'variant': variant}
+    # 2b. point a stage-qualified reference at every other stage of the document (and one stage past the last)
+    all_stages = sorted(set(e['stage'] for e in comps + inner + imports if e['stage'] is not None))
+    for where, lst in spaces:
+        for e in sorted(lst, key=lambda e: e['where'][1]):
+            off = e.get('offset', 0)
+            for j, ref in enumerate(e['comp'].get('references') or []):
+                p = V.parse_ref(ref)
+                if p is None or p[0] is None or p[1].startswith('/'):
+                    continue
+                for st in [x - off for x in all_stages if x - off >= 0] + [all_stages[-1] - off + 1]:
+                    if st != p[0]:
+                        yield {'kind': 'restage', 'where': where, 'index': e['where'][1], 'ref': j, 'stage': st}
     # 3. add an edge that closes a cycle: u consumes v for every v that (transitively) depends on u, and u itself
     succ = {}
     for a, b in an.edges:
@@ -362,6 +443,22 @@ def mutations(base, platform, thorough):
             for b in sorted(lst, key=lambda e: e['where'][1]):
                 if a is not b and a['stage'] == b['stage'] and a['name'] != b['name']:
                     yield {'kind': 'dup', 'where': where, 'from': a['where'][1], 'to': b['where'][1]}
+                    # the same with every reference to j re-spelled: nothing dangles, only the identifier repeats
+                    yield {'kind': 'dup', 'where': where, 'from': a['where'][1], 'to': b['where'][1], 'consistent': True}
+    # 4b. identifiers that only repeat AFTER replication: component j of the same stage is called like replica k of a
+    #     replicated component i (k = 0..n; k = n is the first name that does not clash), references re-spelled
+    if an.replicas:
+        for a in sorted(comps, key=lambda e: e['where'][1]):
+            n = an.replicas.get(a['where'], 0)
+            if not n:
+                continue
+            for b in sorted(comps, key=lambda e: e['where'][1]):
+                if a is b or a['stage'] != b['stage']:
+                    continue
+                for k in sorted(set([0, 1, n - 1, n])):
+                    if 0 <= k <= n:
+                        yield {'kind': 'dupreplica', 'where': 'doc', 'index': b['where'][1],
+                               'to': '%s%d' % (a['name'], k), 'like': a['where'][1]}
     # 5. misspell every option key at every nesting level
     for path, key, scope in an.key_positions:
         typos = _misspellings(key)
